@@ -72,6 +72,7 @@ def programs(w):
                                     if dk in ("pre", "post"):
                                         c["eargs"] = list(eargs)
                                         c["edefaults"] = [n for n in eargs if rng.random() < 0.35]
+                                        c["eextra"] = rng.random() < 0.3
                                         if "OLD" in c["args"] and not n_snap:
                                             c["args"].remove("OLD")
                                     if dk == "snap":
@@ -161,6 +162,11 @@ def judge(w, loaded, model, contracts, call, tid, meta) -> None:
         elif form in ("factory", "method"):
             w.count("factory_calls", len(err_events))
             made = hub.factory_made.get(tid, [])
+            if len(err_events) == 0 and c.get("eextra") and type(exc) is TypeError and "have not been set" in str(exc):
+                # mechanism: every parameter of the factory is demanded from the call values, defaulted ones included
+                w.violation("C09/defaulted-factory-parameter-demanded", "the factory has a defaulted parameter that names no call value; instead "
+                            "of being called with the values it names, the caller got TypeError: {}".format(str(exc)[-120:]), case, detail)
+                continue
             if len(err_events) != 1:
                 w.violation("C09/factory-call-count", "error factory called {} times".format(len(err_events)), case, detail)
             elif not made or exc is not made[-1]:
